@@ -4,7 +4,7 @@ Model of `src/marker/mod.rs` on `List Char` (C10).
 Part 1 — the code: `strReplace` (`str::replace`), `containsSub` (`str::contains`), `escape`
 (`regex::escape`), `sortByLen` / `sortVars` (the two `sort_by` calls: stable, UTF-8 byte length,
 descending), `MarkerString.new` (sequential guarded replace into the matching and the capturing regex),
-`replaceVars` (`StaticOrDynamic::replace`).
+`replaceVars` (`StaticOrDynamic::replace`, one pass; `replaceSeq` = the sequential code before repair 9f65cbb).
 
 Part 2 — the specification view: a template is *parsed once*, left to right, into items (`lit c`, a stray
 `@`, `ref name` = `@name` for the LONGEST known name that is a prefix of what follows the `@`); simultaneous
@@ -169,9 +169,33 @@ def StaticOrDynamic.newWithMarkers (lower : Str → Str) (t : Str) (markers : Li
     | none => .static (if ic then lower t else t)
     | some m => .dynamic m
 
-/-- `StaticOrDynamic::replace`: sequential textual replace of `@name` by the value, in list order. -/
-def replaceVars (t : Str) (vars : List (Str × Str)) : Str :=
+/-- `StaticOrDynamic::replace` BEFORE repair 9f65cbb: sequential textual replace of `@name` by the value, in list
+order (kept for the record: Props/C10 states what it computed and what the repair fixed). -/
+def replaceSeq (t : Str) (vars : List (Str × Str)) : Str :=
   vars.foldl (fun s v => strReplace (fmt v.1) v.2 s) t
+
+/-- `for (name, value) in variables { if after.starts_with(name) { … } }`: the first entry, in list order, whose
+name is a prefix of the text after the `@`. -/
+def firstMatch : List (Str × Str) → Str → Option (Str × Str)
+  | [], _ => none
+  | p :: rest, s => if pre p.1 s then some p else firstMatch rest s
+
+/-- Scanner of `StaticOrDynamic::replace` (`skip` chars of a recognised name are still to be passed over):
+text is copied; at an `@`, the first variable whose name follows gives its value and the name is skipped; if no
+name fits the `@` is copied. -/
+def scanAux (vars : List (Str × Str)) : Nat → Str → Str
+  | _, [] => []
+  | skip + 1, _ :: cs => scanAux vars skip cs
+  | 0, c :: cs =>
+    if c = '@' then
+      match firstMatch vars cs with
+      | some p => p.2 ++ scanAux vars p.1.length cs
+      | none => '@' :: scanAux vars 0 cs
+    else c :: scanAux vars 0 cs
+
+/-- `StaticOrDynamic::replace` (repair 9f65cbb): ONE pass over the template; a substituted value is never scanned
+again. -/
+def replaceVars (t : Str) (vars : List (Str × Str)) : Str := scanAux vars 0 t
 
 /-! ### Part 2: the simultaneous view -/
 
